@@ -1149,6 +1149,41 @@ let step cap peer selof fixB fixD calm s = function
      then None
      else Some (wclosed (disarm s f false) (upd s.closed f true)))
 
+(** val peerv : nat -> nat **)
+
+let peerv f =
+  if Nat.even f then S f else pred f
+
+(** val selv : nat -> nat **)
+
+let selv f =
+  f
+
+type tmode =
+| MNone
+| MRun of nat
+| MKer of nat
+| MKerX
+
+type aux = { tm : (nat -> tmode); cmap : (z * nat) list; nco : nat;
+             oflag : (z * nat) list; oco : (z * nat) list; preflag : 
+             z list; selthr : (nat -> nat option);
+             selcur : (nat -> nat option); selpre : (nat -> z option);
+             fds : nat list; dgr : (nat -> bool); amap : (nat -> nat option);
+             cpend : (nat -> nat option); ctgt : (nat -> nat option);
+             precan : nat list; cnull : (nat -> nat option); seen : nat list }
+
+type ast = { ms : st; ax : aux; acap : nat; fresh : bool }
+
+(** val aux0 : aux **)
+
+let aux0 =
+  { tm = (fun _ -> MNone); cmap = []; nco = O; oflag = []; oco = [];
+    preflag = []; selthr = (fun _ -> None); selcur = (fun _ -> None);
+    selpre = (fun _ -> None); fds = []; dgr = (fun _ -> false); amap =
+    (fun _ -> None); cpend = (fun _ -> None); ctgt = (fun _ -> None);
+    precan = []; cnull = (fun _ -> None); seen = [] }
+
 (** val capv : nat **)
 
 let capv =
@@ -1202,45 +1237,10 @@ let capv =
     (S (S (S (S (S (S (S (S (S (S (S (S (S (S (S (S
     O))))))))))))))))))))))))))))))))))))))))))))))))))))))))))))))))))))))))))))))))))))))))))))))))))))))))))))))))))))))))))))))))))))))))))))))))))))))))))))))))))))))))))))))))))))))))))))))))))))))))))))))))))))))))))))))))))))))))))))))))))))))))))))))))))))))))))))))))))))))))))))))))))))))))))))))))))))))))))))))))))))))))))))))))))))))))))))))))))))))))))))))))))))))))))))))))))))))))))))))))))))))))))))))))))))))))))))))))))))))))))))))))))))))))))))))))))))))))))))))))))))))))))))))))))))))))))))))))))))))))))))))))))))))))))))))))))))))))))))))))))))))))))))))))))))))))))))))))))))))))))))))))))))))))))))))))))))))))))))))))))))))))))))))))))))))))))))))))))))))))))))))))))))))))))))))))))))))))))))))))))))))))))))))))))))))))))))))))))))))))))))))))))))))))))))))))))))))))))))))))))))))))))))))))))))))))))))))))))))))))))))))))))))))))))))))))))))))))))))))))))))))))))))))))))))))))))))))))))))))))))))))))))))))))))))))))))))))))))))))))))))))))))))))))))))))))))))))))))))))))
 
-(** val peerv : nat -> nat **)
-
-let peerv f =
-  if Nat.even f then S f else pred f
-
-(** val selv : nat -> nat **)
-
-let selv f =
-  f
-
-type tmode =
-| MNone
-| MRun of nat
-| MKer of nat
-| MKerX
-
-type aux = { tm : (nat -> tmode); cmap : (z * nat) list; nco : nat;
-             oflag : (z * nat) list; oco : (z * nat) list; preflag : 
-             z list; selthr : (nat -> nat option);
-             selcur : (nat -> nat option); selpre : (nat -> z option);
-             fds : nat list; dgr : (nat -> bool); amap : (nat -> nat option);
-             cpend : (nat -> nat option); ctgt : (nat -> nat option);
-             precan : nat list; cnull : (nat -> nat option); seen : nat list }
-
-type ast = { ms : st; ax : aux }
-
-(** val aux0 : aux **)
-
-let aux0 =
-  { tm = (fun _ -> MNone); cmap = []; nco = O; oflag = []; oco = [];
-    preflag = []; selthr = (fun _ -> None); selcur = (fun _ -> None);
-    selpre = (fun _ -> None); fds = []; dgr = (fun _ -> false); amap =
-    (fun _ -> None); cpend = (fun _ -> None); ctgt = (fun _ -> None);
-    precan = []; cnull = (fun _ -> None); seen = [] }
-
 (** val ainit : ast **)
 
 let ainit =
-  { ms = init; ax = aux0 }
+  { ms = init; ax = aux0; acap = capv; fresh = true }
 
 (** val set_tm : aux -> (nat -> tmode) -> aux **)
 
@@ -1511,6 +1511,11 @@ let is_err v =
   Z.leb (Zpos (XO (XO (XO (XO (XO (XO (XO (XO (XO (XO (XO (XO (XO (XO (XO (XO
     (XO (XO (XO (XO (XO (XO (XO (XO (XO (XO (XO (XO (XO (XO (XO (XO
     XH))))))))))))))))))))))))))))))))) v
+
+(** val mstep : bool -> nat -> st -> action -> st option **)
+
+let mstep calm cap =
+  step cap peerv selv true true calm
 
 (** val mkplan : ast -> z list -> plan **)
 
@@ -2436,26 +2441,68 @@ let mkplan s e =
                   | _ -> None)
                | _ :: _ -> None)))))
 
-(** val exec : bool -> st -> action list -> st option **)
+(** val exec : bool -> nat -> st -> action list -> st option **)
 
-let rec exec calm m = function
+let rec exec calm cap m = function
 | [] -> Some m
 | a0 :: r ->
-  (match step capv peerv selv true true calm m a0 with
-   | Some m' -> exec calm m' r
+  (match mstep calm cap m a0 with
+   | Some m' -> exec calm cap m' r
    | None -> None)
+
+(** val is_cap : z list -> nat option **)
+
+let is_cap = function
+| [] -> None
+| z0 :: l ->
+  (match z0 with
+   | Zpos p0 ->
+     (match p0 with
+      | XI p1 ->
+        (match p1 with
+         | XI p2 ->
+           (match p2 with
+            | XO p3 ->
+              (match p3 with
+               | XH ->
+                 (match l with
+                  | [] -> None
+                  | _ :: l0 ->
+                    (match l0 with
+                     | [] -> None
+                     | n :: l1 ->
+                       (match l1 with
+                        | [] -> None
+                        | _ :: l2 ->
+                          (match l2 with
+                           | [] -> Some (Z.to_nat n)
+                           | _ :: _ -> None))))
+               | _ -> None)
+            | _ -> None)
+         | _ -> None)
+      | _ -> None)
+   | _ -> None)
 
 (** val accept_ev : bool -> ast -> z list -> ast option **)
 
 let accept_ev calm s e =
-  match mkplan s e with
-  | Some p0 ->
-    let (p1, x') = p0 in
-    let (al, post) = p1 in
-    (match exec calm s.ms al with
-     | Some m' -> if post m' then Some { ms = m'; ax = x' } else None
+  match is_cap e with
+  | Some n ->
+    if s.fresh
+    then Some { ms = init; ax = s.ax; acap = n; fresh = true }
+    else None
+  | None ->
+    (match mkplan s e with
+     | Some p0 ->
+       let (p1, x') = p0 in
+       let (al, post) = p1 in
+       (match exec calm s.acap s.ms al with
+        | Some m' ->
+          if post m'
+          then Some { ms = m'; ax = x'; acap = s.acap; fresh = false }
+          else None
+        | None -> None)
      | None -> None)
-  | None -> None
 
 (** val final_ok : ast -> bool **)
 
